@@ -56,9 +56,13 @@ def render(case, k):
     for i in range(1, n + 1):
         ff, df = case["ffault"][i - 1], case["dfault"][i - 1]
         path = "f%d.circom" % i
+        if i == 1:
+            path = {"plain": path, "underlib": "lib/" + path, "libparent": "deps/lib/" + path, "libfile": path, "viadir": "d/" + path}[case.get("place", "plain")]
         has_main = i <= case["mains"]
         text = base_file(i, has_main, df, k + i, with_include=(ff == "include"))
         f = {"path": path, "named": True, "text": text}
+        if i == 1 and case.get("place") == "viadir":
+            f["named"] = False          # handed over through its directory (see `argv_extras`)
         if ff == "missing":
             f = {"path": path, "named": True, "missing": True}
         elif ff == "unreadable":
@@ -177,7 +181,11 @@ def run(tier):
 
     def one(job):
         k, case, files, faults, expect, opts = job
-        return proj.run_binary(files, os.path.join(wd, "bin", "p%d" % k), opts, timeout=60)
+        root = os.path.join(wd, "bin", "p%d" % k)
+        place = case.get("place", "plain")
+        libs = {"underlib": ["lib"], "libparent": ["deps"], "libfile": ["f1.circom"]}.get(place, [])
+        extra = [os.path.join(root, "d")] if place == "viadir" else []
+        return proj.run_binary(files, root, opts, libs=libs, extra_args=extra, timeout=60)
     runs = proj.par_runs(jobs, one)
     records, meta = [], []
     for (k, case, files, faults, expect, opts), r in zip(jobs, runs):
